@@ -90,6 +90,8 @@ pub struct Checked {
     pub type_errors: bool,
     /// `UndefinedVariable(name)` errors of the typechecker: (start of the span, declared name)
     pub undefined: Vec<(u32, String)>,
+    /// start of the span of every error of the typechecker
+    pub error_starts: Vec<u32>,
 }
 
 /// `None`: the parser produced no AST at all. Panics of the front end itself propagate (the
@@ -107,6 +109,7 @@ pub fn check(text: &str) -> Option<Checked> {
     };
     let src = source::FileMap::new("test".into(), text.to_string());
     let mut undefined = vec![];
+    let mut error_starts = vec![];
     let (metadata, infix_errors, type_errors) = {
         let (arena, expr) = expr.arena_expr();
         let arena = arena.borrow();
@@ -131,6 +134,7 @@ pub fn check(text: &str) -> Option<Checked> {
                 Ok(_) => false,
                 Err(errors) => {
                     for e in &errors {
+                        error_starts.push(e.span.start().0);
                         if let gluon_check::typecheck::TypeError::UndefinedVariable(id) = &e.value.error {
                             undefined.push((e.span.start().0, id.declared_name().to_string()));
                         }
@@ -149,5 +153,6 @@ pub fn check(text: &str) -> Option<Checked> {
         infix_errors,
         type_errors,
         undefined,
+        error_starts,
     })
 }
